@@ -24,14 +24,14 @@ if _plan_path:
     _disk = _seams.SimDisk(buffer_size=_knobs.get("buffer_size", 8192), chunk_size=_knobs.get("chunk_size"))
     for _l, _t in _plan.get("symlinks", {}).items():
         _disk.symlink(_l, _t)
+    for _l, _t in _plan.get("file_symlinks", {}).items():
+        _disk.symlink(_l, _t)  # (before the files and fault plans: names are resolved when they are registered)
     for _p, _b in _plan["files"].items():
         _disk.put(_p, base64.b64decode(_b))
     for _p, _faults in _plan.get("plans", {}).items():
         _disk.plans[_p] = _seams.WritePlan.from_faults(_faults)
     for _d in _plan.get("missing", []):
         _disk.declare_missing(_d)
-    for _l, _t in _plan.get("file_symlinks", {}).items():
-        _disk.symlink(_l, _t)
 
     import iodata.api
     import iodata.utils
